@@ -241,6 +241,48 @@ theorem C09_call_footprints_modelled : callFootprintsModelled = true := by
     | decide
     | fail "the generated per-call footprints (entryFootprints) are not covered by the model's reading"
 
+/-- **The cut at nested entry points is closed for handlers outside a group.**  The closures of
+`C09_call_footprints_modelled` stop where a call enters the entry point of *another* `Api` call
+(`nestedEntries` of the regenerated table: e.g. `evalArguments` names `addArgument`, the
+constructors name `addArgument` / `internAddArgument` for the help arguments).  What the nested
+entry reaches is in *its* row, not in the row of the call that nests it — so `usage()` or
+`listArgGroups()` called from somewhere inside `evalArguments` or `internAddArgument`, or
+`addStandardArgument()` from a constructor, would reach `Groups::instance()` from a plain thread
+with no row saying so.  This theorem, by `decide` over the regenerated table: every nested entry
+is the entry of some `Api` call, and with `mUsedByGroup = false` no call with that entry reaches a
+singleton member (call-site table and guards of the tree under check) unless the nesting call is
+itself said to — except the two accepted pairs of `nestedAccepted` (the constructors take the
+*address* of `usage` / `listArgGroups` for the help arguments' callbacks; a thread that triggers
+them has `Api.usage` / `Api.listArgGroups` in its call list).  Not covered: handlers created by
+`Groups` (`mUsedByGroup = true`; their constructor's help arguments do reach the singleton through
+the nested `internAddArgument` — such a thread is not `Plain`), and calls the closure does not see
+at all (`std::function` targets, destructors). -/
+theorem C09_nested_entries_modelled : nestedEntriesModelled = true := by
+  have : nestedModelled (.evalUse 0 0) = true := by
+    first
+      | decide
+      | fail "nested entry points of `evalUse` (Handler::evalArguments): its call closure names the entry point of another call that reaches a singleton member on a handler outside a group (usage / listArgGroups / addStandardArgument / evalArgumentString; see nestedEntries in the translator report)"
+  have : nestedModelled (.construct false false) = true := by
+    first
+      | decide
+      | fail "nested entry points of `construct` (Handler::Handler): other than the accepted address-taken usage / listArgGroups, its call closure names the entry point of a call that reaches a singleton member on a handler outside a group (see nestedEntries in the translator report)"
+  have : nestedModelled (.addListArg 0) = true ∧ nestedModelled .addBracketHandler = true ∧
+      nestedModelled .addSubGroupArg = true := by
+    first
+      | decide
+      | fail "nested entry points of `addListArg` / `addBracketHandler` / `addSubGroupArg`: the call closure names the entry point of a call that reaches a singleton member on a handler outside a group (see nestedEntries in the translator report)"
+  first
+    | decide
+    | fail "a nested entry point in the generated per-call footprints (nestedEntries) reaches a singleton member on a handler outside a group and the nesting call is not said to"
+
+/-- not vacuous: the table of the tree under check has nested entries, the entry `usage` belongs
+to a call and reaches the singleton outside a group (so a nested `usage` is what the obligation
+refuses), and a nested `addArgument` — what `evalArguments` names today — does not -/
+example : (entryFootprints.flatMap (·.nestedEntries)).length ≥ 1 ∧
+    !(apisOfEntryName "usage").isEmpty = true ∧
+    (apisOfEntryName "usage").all (fun b => b.touchesSingleton false) = true ∧
+    (apisOfEntryName "addArgument").all (fun b => !b.touchesSingleton false) = true := by decide
+
 /-- the obligation is not vacuous on the tree under check: the table has a row for each of the nine
 calls, the closures are not trivial (more than 300 function names, more than 90 reached from
 `evalArguments`), the constructors bind both standard streams, and seven rows of the call-site
